@@ -34,6 +34,7 @@ import (
 	pb "github.com/prometheus/alertmanager/silence/silencepb"
 	"github.com/prometheus/alertmanager/types"
 
+	"verifharness/appsys"
 	"verifharness/vh"
 )
 
@@ -1003,6 +1004,11 @@ func runCase(t *testing.T, c *Case) *result {
 func TestCheck(t *testing.T) {
 	env := vh.GetEnv()
 	run := vh.NewRun(env, "AM.Run.C18Run")
+	// app engine: the REAL application wiring (package app) in real time, in its own process; reports through run.
+	// true = the replay file held an app-engine case and has been handled.
+	if appsys.Part(t, env, run, "C18") {
+		return
+	}
 	var cases []Case
 	if env.Replay != "" {
 		var c Case
